@@ -9,13 +9,8 @@ import (
 	"path/filepath"
 	"strconv"
 	"strings"
-	"sync"
 	"time"
 
-	"github.com/mimecast/dtail/internal/mapr"
-	maprclient "github.com/mimecast/dtail/internal/mapr/client"
-	"github.com/mimecast/dtail/internal/source"
-	"github.com/mimecast/dtail/verifharness/internal/dt"
 	"github.com/mimecast/dtail/verifharness/internal/mq"
 	"github.com/mimecast/dtail/verifharness/internal/vlib"
 )
@@ -24,7 +19,6 @@ import (
 
 func init() {
 	Drivers["C06"] = c06
-	Children["c06merge"] = c06MergeChild
 }
 
 func c06Line(fid string, g, seq int) string {
@@ -397,60 +391,6 @@ func c06Systematic(r *vlib.Run) {
 
 type c06MergeCase struct {
 	N, K, Groups int
-}
-
-func c06MergeChild(args []string) int {
-	dir := args[0]
-	dt.Init(source.Client, "none", "none", "error", true)
-	return vlib.BatchMain(dir, func(i int, raw json.RawMessage) interface{} {
-		var c c06MergeCase
-		json.Unmarshal(raw, &c)
-		q, err := mapr.NewQuery("select g,count($line),sum(w) from CONS group by g")
-		if err != nil {
-			return map[string]interface{}{"err": err.Error()}
-		}
-		global := mapr.NewGlobalGroupSet()
-		var wg sync.WaitGroup
-		start := make(chan struct{})
-		for n := 0; n < c.N; n++ {
-			wg.Add(1)
-			go func(n int) {
-				defer wg.Done()
-				a := maprclient.NewAggregate(fmt.Sprintf("srv%d", n), q, global)
-				<-start
-				for k := 0; k < c.K; k++ {
-					g := k % c.Groups
-					a.Aggregate(fmt.Sprintf("g%d∥1∥count($line)≔1∥sum(w)≔1∥g≔g%d∥", g, g))
-				}
-			}(n)
-		}
-		// a concurrent reader of interim results, like the periodic reporter
-		stop := make(chan struct{})
-		go func() {
-			for {
-				select {
-				case <-stop:
-					return
-				default:
-					global.Result(q, 10)
-				}
-			}
-		}()
-		close(start)
-		wg.Wait()
-		close(stop)
-		res, _, err := global.Result(q, 1000)
-		total := 0
-		for _, l := range strings.Split(res, "\n") {
-			f := strings.Split(l, "|")
-			if len(f) == 3 {
-				if v, err := strconv.Atoi(strings.TrimSpace(f[1])); err == nil {
-					total += v
-				}
-			}
-		}
-		return map[string]interface{}{"total": total, "want": c.N * c.K}
-	})
 }
 
 func c06Merge(r *vlib.Run) {
